@@ -20,7 +20,7 @@ EXPLANATION = (
     "(0 included) and up to 3/4 cells, convert_args_in_math and the dot-chain converters over their child sequences. (3) The whole printer, nothing "
     "opaque: convert_expr on node shapes taken from real parses (15 / 400 per kind, up to 16 / 40 nodes) and AttrStore::new + convert_markup on a list of "
     "small documents, with context, indent unit, width and the blanks of whitespace tokens symbolic: no path ends in a panic. Panics and hangs inside the parser, the pretty "
-    "renderer and the tree-walking code not listed are outside the claim, as is 'bounded time'.")
+    "renderer and the tree-walking code not listed are outside the claim, as is 'bounded time'. Session 3: format_with_width on contents of symbolic code points; block comments that are never closed; work that doubles per nesting level (the obligations of C18 up to depth 4 / 8) as 'never hangs'.")
 
 
 def run(S):
